@@ -20,9 +20,15 @@ pub struct Case {
     /// the tape is read by `gen::build_kw` (no content terminal at all)
     #[serde(default)]
     pub kw: bool,
+    /// all rule and terminal names lower-cased (the style of examples/clang)
+    #[serde(default)]
+    pub lower: bool,
 }
 
 pub fn spec_of(c: &Case) -> crate::spec::GrammarSpec {
+    if c.lower {
+        return gen::build_ast(&c.tape).lowercased();
+    }
     if c.kw {
         gen::build_kw(&c.tape)
     } else if c.rec {
@@ -208,7 +214,7 @@ pub fn run(tier: Tier, seed: u64, replay: Option<&Path>) -> RunResult {
                 let tape = gen::g_ast().new_tree(&mut runner).unwrap().current();
                 for k in 0..3 {
                     let cfg = cov[(g * 3 + k + b) % cov.len()];
-                    v.push(Case { tape: tape.clone(), cfg, rec: false, kw: false });
+                    v.push(Case { tape: tape.clone(), cfg, rec: false, kw: false, lower: g % 5 == 4 && k == 0 });
                 }
             }
             // recursive type shapes (vector / optional / sugar edges that point back)
@@ -217,7 +223,7 @@ pub fn run(tier: Tier, seed: u64, replay: Option<&Path>) -> RunResult {
                 for k in 0..2 {
                     let mut cfg = cov[(g * 2 + k + b) % cov.len()];
                     cfg.builder = 0; // the types live in the actions file of the default builder
-                    v.push(Case { tape: tape.clone(), cfg, rec: true, kw: false });
+                    v.push(Case { tape: tape.clone(), cfg, rec: true, kw: false, lower: false });
                 }
             }
             // grammars without any content terminal (keywords only), default builder
@@ -227,7 +233,7 @@ pub fn run(tier: Tier, seed: u64, replay: Option<&Path>) -> RunResult {
                     let mut cfg = cov[(g * 2 + k + b + 5) % cov.len()];
                     cfg.builder = 0;
                     cfg.loc_info = k == 0;
-                    v.push(Case { tape: tape.clone(), cfg, rec: false, kw: true });
+                    v.push(Case { tape: tape.clone(), cfg, rec: false, kw: true, lower: false });
                 }
             }
             cases.push(v);
